@@ -405,7 +405,10 @@ fn oracle_laws(schemas: &[SchemaJ], seed: u64, per_model: u64, only: Option<(u64
                 break;
             };
             let missing = HashMap::new();
-            let mut v = RtVisitor { prim: &p, objs: &g.objs, missing: &missing, tolerant: false, out: None, read_only: None };
+            // well-typed input: strict and tolerant mode must agree; alternate
+            let tolerant = case % 2 == 1;
+            l1.count(if tolerant { "mode=tolerant" } else { "mode=strict" });
+            let mut v = RtVisitor { prim: &p, objs: &g.objs, missing: &missing, tolerant, out: None, read_only: None };
             visit_model(name, &mut v);
             let Some(res) = v.out else { continue };
             let key = format!("{} {}", name, show_plain(&p));
